@@ -112,7 +112,11 @@ func checkC01(c *core.Ctx) {
 		}
 		return m
 	}
-	plans := []plan{{full, 0, "full"}, {full, 1, "full"}, {full, 2, "full"},
+	k2 := plan{fo.Profile{ExtWithReps: true}, 2, "full; round-3 productions only with representatives"}
+	if c.Thorough() {
+		k2 = plan{full, 2, "full"}
+	}
+	plans := []plan{{full, 0, "full"}, {full, 1, "full"}, k2,
 		{fo.Profile{Only: only("if-else", "if-only", "app-say")}, 3, "if nesting"},
 		{fo.Profile{Only: only("let", "lambda-let", "partial-let", "pipe-partial", "local-fun", "lifted-annotated", "lifted-unannotated", "app-add", "app-fnvalue", "app-say")}, 3, "closure constructs"}}
 	if c.Thorough() {
